@@ -8,9 +8,16 @@ type tagCycleValue struct {
 type tagCycleNode struct {
 	position *Token
 	args     []IEvaluator
-	idx      int
 	asName   string
 	silent   bool
+}
+
+// nextItem returns the next argument of the cycle. The position within the
+// cycle is kept per execution (not within the node).
+func (node *tagCycleNode) nextItem(ctx *ExecutionContext) IEvaluator {
+	idx, _ := ctx.getNodeState()[node].(int)
+	ctx.getNodeState()[node] = idx + 1
+	return node.args[idx%len(node.args)]
 }
 
 func (cv *tagCycleValue) String() string {
@@ -18,8 +25,7 @@ func (cv *tagCycleValue) String() string {
 }
 
 func (node *tagCycleNode) Execute(ctx *ExecutionContext, writer TemplateWriter) *Error {
-	item := node.args[node.idx%len(node.args)]
-	node.idx++
+	item := node.nextItem(ctx)
 
 	val, err := item.Evaluate(ctx)
 	if err != nil {
@@ -31,8 +37,7 @@ func (node *tagCycleNode) Execute(ctx *ExecutionContext, writer TemplateWriter) 
 		// {% cycle cycleitem %}
 
 		// Update the cycle value with next value
-		item := t.node.args[t.node.idx%len(t.node.args)]
-		t.node.idx++
+		item := t.node.nextItem(ctx)
 
 		val, err := item.Evaluate(ctx)
 		if err != nil {
